@@ -264,3 +264,27 @@ func originBases() []*lib.Node {
 	}
 	return out
 }
+
+// nonCanonical: valid geometries whose self-union differs STRUCTURALLY from the geometry itself
+// (noding, de-duplication, merging): self-crossing and back-tracking line strings, MultiPoints with
+// repeated points, MultiLineStrings with collinear overlap, edge-adjacent polygons and lines covered
+// by polygons in a collection. "Union with an empty operand is the self-union of the other operand"
+// is judged on these structurally.
+func nonCanonical() []*lib.Node {
+	ct := geom.DimXY
+	sq := func(x0, y0, x1, y1 int) *lib.Node {
+		return nodeOf(lib.KPoly, ct, nodeLine(ct, x0, y0, x1, y0, x1, y1, x0, y1, x0, y0))
+	}
+	return []*lib.Node{
+		nodeLine(ct, 0, 0, 2, 2, 2, 0, 0, 2),             // crosses itself at (1 1)
+		nodeLine(ct, 0, 0, 4, 0, 2, 0, 2, 3),             // retraces part of itself
+		nodeLine(ct, 1, 1, 3, 1, 3, 3, 1, 3, 1, 1, 3, 1), // closed ring walked one edge too far
+		nodeOf(lib.KMPoint, ct, nodePoint(ct, 1, 2), nodePoint(ct, 1, 2), nodePoint(ct, 0, 0), nodePoint(ct, 1, 2)),
+		nodeOf(lib.KMLine, ct, nodeLine(ct, 0, 0, 4, 0), nodeLine(ct, 2, 0, 6, 0)),                           // collinear overlap
+		nodeOf(lib.KMLine, ct, nodeLine(ct, 0, 0, 2, 2), nodeLine(ct, 0, 2, 2, 0), nodeLine(ct, 0, 0, 2, 2)), // crossing + duplicate
+		nodeOf(lib.KColl, ct, sq(0, 0, 2, 2), sq(2, 0, 4, 2)),                                                // edge-adjacent polygons
+		nodeOf(lib.KColl, ct, sq(0, 0, 4, 4), nodeLine(ct, 1, 1, 3, 3), nodePoint(ct, 2, 1)),                 // line and point covered by a polygon
+		nodeOf(lib.KColl, ct, nodeLine(ct, 0, 0, 2, 2, 2, 0, 0, 2), nodeOf(lib.KMPoint, ct, nodePoint(ct, 1, 1), nodePoint(ct, 1, 1))),
+		nodeOf(lib.KPoly, ct, nodeLine(ct, 0, 0, 4, 0, 4, 4, 0, 4, 0, 0), nodeLine(ct, 1, 1, 1, 2, 2, 2, 2, 1, 1, 1)),
+	}
+}
